@@ -64,6 +64,7 @@ func main() {
 	trace := flag.Bool("trace", false, "trace paths")
 	maxPaths := flag.Int("maxpaths", 0, "path budget")
 	params := flag.String("params", "", "k=v,k=v harness parameters")
+	deadline := flag.Int("deadline", 0, "stop exploring after this many seconds")
 	flag.Parse()
 
 	ov, _, err := buildOverlay(*repo, *hdir)
@@ -85,6 +86,9 @@ func main() {
 			fmt.Sscan(v, &n)
 			cfg.Params[k] = n
 		}
+	}
+	if *deadline > 0 {
+		cfg.Deadline = time.Now().Add(time.Duration(*deadline) * time.Second)
 	}
 	t0 := time.Now()
 	x, err := interp.RunHarness(ld, *pkg, *fn, cfg, *j)
